@@ -37,6 +37,39 @@ Section C02.
   Proof. intros Hw Hv fuel tr t st log k Hwb E sol. exact (resolve_nosolution_sound Hw Hv fuel tr t st log k Hwb E sol). Qed.
 End C02.
 
+(* The converse, from termination (C05) and panic-freedom: on a finite registry, with a lawful VersionSet with atomic
+   singletons, a provider that answers inside the offered set and returns no error, and a recorded trace that is a
+   complete run of the model (not OMismatch/OPickNotMax) with enough fuel: if a solution exists, resolve returns
+   Ok - "whether a solution is found never depends on the strategy, only on the registry", in both directions. *)
+From PG Require Import Proofs.SolverNoPanic1 Proofs.SolverNoPanic Proofs.SolverTerm1 Proofs.SolverTerm.
+Section C02_complete.
+  Context {VS Vr : Type} (O : VSOps VS Vr) (L : VSLawful O) (veqb : Vr -> Vr -> bool).
+  Context (reg : registry (VS := VS) (Vr := Vr)) (r : pkg) (rv : Vr).
+  Variable R : Ranked O L.
+  Variable pkgs : list pkg.
+
+  Theorem resolve_finds_a_solution_when_one_exists :
+    singleton_atomic O L -> reg_wf O L reg -> (forall a b, veqb a b = true -> a = b) ->
+    In r pkgs -> (forall p v ds q s, reg_deps reg p v = Some ds -> In (q, s) ds -> In q pkgs) ->
+    (forall p v ds q s, reg_deps reg p v = Some ds -> In (q, s) ds -> alg R s) ->
+    (forall p v, In v (reg_versions reg p) -> alg R (vs_singleton O v)) -> alg R (vs_singleton O rv) ->
+    forall fuel (tr : list (event (VS := VS) (Vr := Vr))) o st log cnt,
+      WellBehaved O reg tr -> choose_contained O tr -> no_error_answers tr ->
+      Fuel1 O L R pkgs <= fuel ->
+      resolve O veqb fuel r rv tr = (o, st, log, cnt) ->
+      (forall k w, o <> OMismatch k w) -> (forall k p, o <> OPickNotMax k p) ->
+      (exists a, Solution O reg r rv a) -> exists sol, o = OSolution sol.
+  Proof.
+    intros Ha Hw Hv H1 H2 H3 H4 H5 fuel tr o st log cnt Hwb Hc He Hf E Hm Hp (a & Hsol).
+    destruct (resolve_terminates O L veqb reg r rv Ha Hw Hv R pkgs H1 H2 H3 H4 H5 fuel tr o st log cnt Hwb Hc He Hf E)
+      as [[Hs|[(t & ->)|[(k & w & ->)|(k & p & ->)]]] _].
+    - exact Hs.
+    - exfalso. exact (resolve_nosolution_sound O L veqb reg r rv Hw Hv fuel tr t st log cnt Hwb E a Hsol).
+    - exfalso. exact (Hm k w eq_refl).
+    - exfalso. exact (Hp k p eq_refl).
+  Qed.
+End C02_complete.
+
 (* non-vacuity: a recorded run over Range<Z> meets all hypotheses and ends in NoSolution (Proofs/SolverExamples.v) *)
 Example nosolution_sound_nonvacuous :
   (exists t st log, resolve zvs Z.eqb 100 0%N 2%Z tr1 = (ONoSolution t, st, log, 8))
@@ -49,3 +82,4 @@ Qed.
 Print Assumptions resolve_nosolution_sound.
 Print Assumptions terminal_refutes.
 Print Assumptions nosolution_strategy_independent.
+Print Assumptions resolve_finds_a_solution_when_one_exists.
